@@ -187,7 +187,8 @@ func (lm *levelManager) searchLowerBound(key types.Key) (types.Entry, bool) {
 	}
 
 	for level, tables := range lm.levels {
-		for e := tables.Front(); e != nil; e = e.Next() {
+		// tables are appended in age order: search the newest table first
+		for e := tables.Back(); e != nil; e = e.Prev() {
 			th := e.Value.(tableHandle)
 
 			// search bloom filter
